@@ -241,8 +241,12 @@ def pure(case, ctx):
 
 
 # ---------------------------------------------------------------------------
-hist_case = st.fixed_dictionaries({"op": st.sampled_from(["sm2_sign_ctx", "sm2_encrypt_ctx", "sm2_sign", "sm2_encrypt", "tls_cbc_encrypt", "sm9_sign", "sm9_encrypt"]),
-                                   "seed": st.integers(0, 1 << 20), "stream": st.integers(1, 1 << 40), "reps": st.integers(40, 200)})
+hist_case = st.fixed_dictionaries({"op": st.sampled_from(["sm2_sign_ctx", "sm2_sign_ctx", "sm2_encrypt_ctx", "sm2_sign", "sm2_encrypt", "tls_cbc_encrypt", "sm9_sign", "sm9_encrypt"]),
+                                   "seed": st.integers(0, 1 << 20), "stream": st.integers(1, 1 << 40), "reps": st.integers(40, 200),
+                                   # entropy faults inside the history: (operation index, draw offset within that operation)
+                                   # biased to the refill points of the pre-computed nonce pools (32 signatures, 8 encryptions)
+                                   "faults": st.lists(st.tuples(st.one_of(st.sampled_from([7, 8, 9, 15, 16, 31, 32, 33, 63, 64, 65, 96]), st.integers(0, 199)),
+                                                                st.integers(0, 40)), max_size=3)})
 
 
 @P.sub("history", hist_case, quick=48, thorough=400, chunk=3)
@@ -251,8 +255,19 @@ def history(case, ctx):
     l = lib(ctx.variant)
     sh = shim()
     op, seed = case["op"], case["seed"]
-    reps = case["reps"] if ctx is None or True else 0
+    reps = case["reps"]
     vals = []
+    faults = {}
+    for (at, off) in case["faults"]:
+        faults.setdefault(at % reps, off)
+    failed_ops = 0
+
+    def arm(i):
+        """make draw number (draws so far + offset) fail once; the operation it hits must report failure"""
+        if i in faults:
+            sh.fail_at(sh.draws() + faults[i])
+            return True
+        return False
     if op in SM9_KIND:
         keys = _sm9_keys(l, SM9_KIND[op])
     try:
@@ -266,7 +281,16 @@ def history(case, ctx):
                     l.sm2_sign_reset(c)
                 l.sm2_sign_update(c, b"same message", 12)
                 out = Buf(72, fill=0); ol = ctypes.c_size_t(0)
-                ctx.check(l.sm2_sign_finish(c, out, ctypes.byref(ol)) == 1, "sm2_sign_finish failed in repetition %d" % i, "hist/ret")
+                before = sh.draws()
+                armed = arm(i)
+                r = l.sm2_sign_finish(c, out, ctypes.byref(ol))
+                hit = armed and sh.draws() > before + faults[i]      # the armed draw was really requested
+                sh.fail_at(-1)
+                if hit:
+                    failed_ops += 1
+                    ctx.check(r != 1, "sm2_sign_finish succeeded although an entropy draw failed (repetition %d)" % i, "hist/fail-open/" + op)
+                    continue
+                ctx.check(r == 1, "sm2_sign_finish failed in repetition %d" % i, "hist/ret")
                 vals.append(D.parse_sig(out.raw(ol.value))[0])      # r = e + x1: same e, so equal r means equal nonce
         elif op == "sm2_encrypt_ctx":
             d = _d(seed, "k"); key = key_in(None, M.pub_of(d))
@@ -277,11 +301,28 @@ def history(case, ctx):
                     l.sm2_encrypt_reset(c)
                 l.sm2_encrypt_update(c, b"same", 4)
                 out = Buf(366, fill=0); ol = ctypes.c_size_t(0)
-                ctx.check(l.sm2_encrypt_finish(c, key, out, ctypes.byref(ol)) == 1, "sm2_encrypt_finish failed in repetition %d" % i, "hist/ret")
+                before = sh.draws()
+                armed = arm(i)
+                r = l.sm2_encrypt_finish(c, key, out, ctypes.byref(ol))
+                hit = armed and sh.draws() > before + faults[i]
+                sh.fail_at(-1)
+                if hit:
+                    failed_ops += 1
+                    ctx.check(r != 1, "sm2_encrypt_finish succeeded although an entropy draw failed (repetition %d)" % i, "hist/fail-open/" + op)
+                    continue
+                ctx.check(r == 1, "sm2_encrypt_finish failed in repetition %d" % i, "hist/ret")
                 vals.append(D.parse_ct(out.raw(ol.value))[:2])
         else:
             for i in range(reps):
+                before = sh.draws()
+                armed = arm(i)
                 r, o = _call(l, op, seed, 20)
+                hit = armed and sh.draws() > before + faults[i]
+                sh.fail_at(-1)
+                if hit:
+                    failed_ops += 1
+                    ctx.check(r != 1, "%s succeeded although an entropy draw failed (repetition %d)" % (op, i), "hist/fail-open/" + op)
+                    continue
                 ctx.check(r == 1, "%s failed in repetition %d" % (op, i), "hist/ret")
                 if op == "sm2_sign":
                     vals.append(D.parse_sig(o)[0])
@@ -293,8 +334,10 @@ def history(case, ctx):
                     vals.append(o)
     finally:
         sh.reset()
-    ctx.case(nontrivial=True, classes=[op], ident=["hist", op, seed, case["stream"], reps], n=reps, sample=case)
-    ctx.check(len(set(map(repr, vals))) == len(vals), "%s: a nonce-derived value repeated within %d operations on one entropy stream" % (op, reps), "hist/repeat/" + op)
+    ctx.note("operations-hit-by-an-entropy-fault", failed_ops)
+    ctx.case(nontrivial=True, classes=[op, "with-faults" if failed_ops else "fault-free"], ident=["hist", op, seed, case["stream"], reps, sorted(faults.items())], n=reps, sample=case)
+    ctx.check(len(set(map(repr, vals))) == len(vals), "%s: a nonce-derived value repeated within %d operations on one entropy stream (%d of them hit by an entropy fault and correctly failed)" % (op, reps, failed_ops),
+              "hist/repeat/" + op + ("/after-fault" if failed_ops else ""))
 
 
 # ---------------------------------------------------------------------------
